@@ -93,11 +93,13 @@ type World struct {
 	aborted  bool
 	stateSet map[string]bool
 	maxViol  int
+	nBlocks  int
 	// scratch for oracles/generators
 	X map[string]interface{}
 }
 
 func (w *World) node() *Node { return w.nodes[0] }
+func (w *World) maxBlockIdx() int { return w.nBlocks - 1 }
 
 func (w *World) Violate(class, format string, args ...interface{}) {
 	v := Violation{Class: class, Block: w.blockIdx, Step: w.stepIdx, Height: w.height, Detail: fmt.Sprintf(format, args...)}
@@ -456,6 +458,11 @@ func (w *World) resolveStep(st *Step) ([]sdk.Msg, []byte) {
 	if len(msgs) == 0 {
 		return nil, nil
 	}
+	if k := st.N["subst"]; k > 0 {
+		if sa := w.acct(st.N["subst_acct"]); sa != nil {
+			substAddressField(msgs[0], int(k), sa.Bech)
+		}
+	}
 	signer := st.Signer
 	if signer < 0 {
 		signer = st.Ops[0].A
@@ -586,6 +593,7 @@ func runSchedule(s *Schedule, gen Generator, orc Oracle, rng *Rng) *RunResult {
 			nb = gen.NBlocks()
 		}
 		t0 := w.now
+		w.nBlocks = nb
 		for b := 0; b < nb && !w.stop; b++ {
 			w.blockIdx = b
 			if gen != nil {
